@@ -27,15 +27,26 @@ Theorem C15_sanitize_create : forall pre w ws1 p ws0 pw post,
 Proof. exact sanitize_create. Qed.
 Print Assumptions C15_sanitize_create.
 
-(* SET PASSWORD FOR "name" = : any user name content, any layout around FOR and '=', any password *)
-Theorem C15_sanitize_set : forall pre p ws1 f ws2 u ws3 ws4 pw post,
+(* SET PASSWORD FOR name = : any spelling nm of the user name that the name recogniser consumes whole in front of a
+   blank or '=' ([name_spelling]: a quoted identifier with any content - C15_quoted_name_spelling - or a bare part
+   directly followed by a quoted one, which the scanner also accepts - C15_parts_name_spelling), any layout around FOR
+   and '=', any password *)
+Theorem C15_sanitize_set : forall pre p ws1 f ws2 nm ws3 ws4 pw post,
   Forall plain pre ->
   spells (ts "password") p -> p <> [] -> all_space ws1 -> ws1 <> [] -> spells (ts "for") f -> f <> [] -> starts_nonspace f ->
-  all_space ws2 -> ws2 <> [] -> all_space ws3 -> all_space ws4 ->
-  sanitize (pre ++ (p ++ ws1 ++ f ++ ws2 ++ quoted_name u ++ ws3 ++ 61 :: ws4) ++ quote_string pw ++ post)
-  = pre ++ (p ++ ws1 ++ f ++ ws2 ++ quoted_name u ++ ws3 ++ 61 :: ws4) ++ redacted ++ sanitize post.
+  all_space ws2 -> ws2 <> [] -> name_spelling nm -> nm <> [] -> starts_nonspace nm -> all_space ws3 -> all_space ws4 ->
+  sanitize (pre ++ (p ++ ws1 ++ f ++ ws2 ++ nm ++ ws3 ++ 61 :: ws4) ++ quote_string pw ++ post)
+  = pre ++ (p ++ ws1 ++ f ++ ws2 ++ nm ++ ws3 ++ 61 :: ws4) ++ redacted ++ sanitize post.
 Proof. exact sanitize_set. Qed.
 Print Assumptions C15_sanitize_set.
+
+Theorem C15_quoted_name_spelling : forall u, name_spelling (quoted_name u) /\ quoted_name u <> [] /\ starts_nonspace (quoted_name u).
+Proof. intros u. split; [apply quoted_name_spelling|]. split; [discriminate|reflexivity]. Qed.
+Print Assumptions C15_quoted_name_spelling.
+
+Theorem C15_parts_name_spelling : forall w u, name_text w -> w <> [] -> name_spelling (w ++ quoted_name u).
+Proof. exact parts_name_spelling. Qed.
+Print Assumptions C15_parts_name_spelling.
 
 (* non-interference: the sanitized text is the same for any two passwords *)
 Theorem C15_sanitize_ni : forall pre w ws1 p ws0 pw1 pw2 post,
@@ -46,12 +57,12 @@ Theorem C15_sanitize_ni : forall pre w ws1 p ws0 pw1 pw2 post,
 Proof. exact sanitize_ni_create. Qed.
 Print Assumptions C15_sanitize_ni.
 
-Theorem C15_sanitize_ni_set : forall pre p ws1 f ws2 u ws3 ws4 pw1 pw2 post,
+Theorem C15_sanitize_ni_set : forall pre p ws1 f ws2 nm ws3 ws4 pw1 pw2 post,
   Forall plain pre ->
   spells (ts "password") p -> p <> [] -> all_space ws1 -> ws1 <> [] -> spells (ts "for") f -> f <> [] -> starts_nonspace f ->
-  all_space ws2 -> ws2 <> [] -> all_space ws3 -> all_space ws4 ->
-  sanitize (pre ++ (p ++ ws1 ++ f ++ ws2 ++ quoted_name u ++ ws3 ++ 61 :: ws4) ++ quote_string pw1 ++ post)
-  = sanitize (pre ++ (p ++ ws1 ++ f ++ ws2 ++ quoted_name u ++ ws3 ++ 61 :: ws4) ++ quote_string pw2 ++ post).
+  all_space ws2 -> ws2 <> [] -> name_spelling nm -> nm <> [] -> starts_nonspace nm -> all_space ws3 -> all_space ws4 ->
+  sanitize (pre ++ (p ++ ws1 ++ f ++ ws2 ++ nm ++ ws3 ++ 61 :: ws4) ++ quote_string pw1 ++ post)
+  = sanitize (pre ++ (p ++ ws1 ++ f ++ ws2 ++ nm ++ ws3 ++ 61 :: ws4) ++ quote_string pw2 ++ post).
 Proof. exact sanitize_ni_set. Qed.
 Print Assumptions C15_sanitize_ni_set.
 
@@ -66,6 +77,11 @@ Theorem C15_refuted_comment_in_clause :
   sanitize (ts "CREATE USER u WITH /* c */ PASSWORD 'pw'") = ts "CREATE USER u WITH /* c */ PASSWORD 'pw'".
 Proof. vm_compute. reflexivity. Qed.
 Print Assumptions C15_refuted_comment_in_clause.
+
+(* the defect repaired by fix 8cadbb0: a user name written as a bare part and a quoted part *)
+Example C15_name_in_parts :
+  sanitize (ts "SET PASSWORD FOR abc""u"" = 'pw'") = ts "SET PASSWORD FOR abc""u"" = [REDACTED]".
+Proof. vm_compute. reflexivity. Qed.
 
 (* the defect repaired by the one-pass pattern: a CREATE USER password that spells a SET PASSWORD clause *)
 Example C15_clause_inside_password :
